@@ -9,11 +9,14 @@ Full-strength statement (FALSE of the code and of the model, see `vm_translate_c
     ∀ res nch prog (well-formed), ∃ cmds, translate res prog = .ok cmds ∧
       ∃ fuel0, ∀ fuel ≥ fuel0, run fuel nch cmds = .ok (asHistory (unrollStairs prog).1, (unrollStairs prog).2)
 
-What is proved: the statement for the fragment `inFragment` (`vm_translate_partial`: programs without
-repetition nodes, of the shape the builder produces, whose keys are faithful and whose plain / zero-key
-holds are separated), which lies outside every known-finding class (`fragment_outside_finding_classes`);
-the negation on concrete witnesses for PF-22 and for the two new findings; VM termination for ALL
-programs (`vm_terminates`); and hardware scaling for ALL command lists (`scaling`).
+What is proved: the statement for the fragment `inFragment` (`vm_translate_partial`): programs of the
+shape the builder produces that lie OUTSIDE the known-finding classes — outside `inPF22` (every
+repetition-free program, and every program whose repetition nodes are visited only in translation
+states their body does not disturb / are first-pass-unrolled with count >= 2), with faithful keys
+(outside `inDepthClash` / `resCollision`) and outside `inZeroKey`. So, up to the builder shape, the
+property holds exactly outside the three finding classes (`fragment_outside_finding_classes`,
+`norep_in_fragment`); inside each class the negation is proved on a concrete witness. Furthermore VM
+termination for ALL programs (`vm_terminates`) and hardware scaling for ALL command lists (`scaling`).
 -/
 namespace QP.Props.C17
 open QP.C17
@@ -35,10 +38,10 @@ theorem stairsMatchB_iff (tol : Rat) (a b : History) : stairsMatchB tol a b = tr
 
 /-! ## the translated program plays the staircase (fragment) -/
 
-/-- **vm_translate (partial).** For every program of the fragment, for every channel count and
-resolution: translation succeeds, and the VM — for every sufficiently large fuel — halts with exactly
-the (start time, per-channel voltage) steps of `unrollStairs` and its total duration. No bound on
-depth, lengths or number of holds. -/
+/-- **vm_translate (partial).** For every program of the fragment (holds, nested and sibling iterations,
+repetitions outside the PF-22 class), for every channel count and resolution: translation succeeds, and
+the VM — for every sufficiently large fuel — halts with exactly the (start time, per-channel voltage)
+steps of `unrollStairs` and its total duration. No bound on depth, lengths, counts or number of holds. -/
 theorem vm_translate_partial (res : Rat) (nch : Nat) (prog : List Node) (h : inFragment res nch prog = true) :
     ∃ cmds, translate res prog = .ok cmds ∧
       ∃ fuel0, ∀ fuel, fuel0 ≤ fuel →
@@ -52,6 +55,12 @@ theorem fragment_outside_finding_classes (res : Rat) (nch : Nat) (prog : List No
       resCollision res prog = false :=
   Judge.fragment_outside res nch prog h
 
+/-- all repetition-free programs of the builder's shape with faithful, separated keys are covered -/
+theorem norep_in_fragment (res : Rat) (nch : Nat) (prog : List Node) (hn : hasRepList prog = false)
+    (hw : wellFormedList nch 0 prog = true) (hk : keyInj res (touchesList prog) = true)
+    (hs : separated res (touchesList prog) (plainsList prog) = true) : inFragment res nch prog = true :=
+  Judge.norep_in_fragment res nch prog hn hw hk hs
+
 /-- non-vacuity: a two-channel staircase with nested and sibling iterations (lengths 3, 2, 1, 4), shared
 registers with different bases, a plain channel value and negative factors is in the fragment -/
 def fragmentExample : List Node :=
@@ -62,6 +71,16 @@ def fragmentExample : List Node :=
            .iter [.hold [2, 1] [some [1/2, -1/4], some [0, 2]] 1] 4 ] 3]
 
 example : inFragment res9 2 fragmentExample = true := by decide +kernel
+
+/-- non-vacuity with repetitions: a top-level repetition of a whole scan (loop around the first translation),
+a "hackedy" repetition with count 3 inside an iteration it depends on (first pass unrolled, loop of 2), and a
+repetition whose body repeats the preceding hold (translation state undisturbed) -/
+def fragmentExampleRep : List Node :=
+  [.rep [.iter [.hold [0] [some [1]] 1] 3] 2,
+   .iter [.rep [.hold [1/2] [some [1/4]] 1] 3] 2,
+   .iter [.hold [2] [some [1/8]] 1, .rep [.hold [2] [some [1/8]] 2] 1] 3]
+
+example : inFragment res9 1 fragmentExampleRep = true ∧ hasRepList fragmentExampleRep = true := by decide +kernel
 
 /-! ## VM termination -/
 
